@@ -109,6 +109,10 @@ def check(ctx):
     _r5(ctx, pkg)
     _r6(ctx, pkg, regs, protos, consts, universal)
     _r7(ctx, rm, pkg, regs)
+    # the index macros the expressions use are the ones the header defines: IDX_<alias> per species and IDX_ELEM_<element key>
+    # per element, the same spelling at definition and use (shared with C09.R4)
+    from .c09 import _r4_defs as macro_definitions
+    ctx.absorb(lambda sub: macro_definitions(sub, package(sub.tree)), "R8", only=lambda o: "definitions" in o.key and o.outcome != "MISSING")
 
 
 # ------------------------------------------------------------------ R1
